@@ -234,7 +234,34 @@ def run(ctx):
             self.kw = kw
             return self.real.timedelta(**kw)
     real_dt = Dm.datetime
-    for s, a in zip(td_inputs, td_ans):
+    # the GENERATED code of timedelta (zcdrv2; float() = the model's acceptance grammar, the constructor accepts everything and
+    # reports its arguments): same protocol as the model's answer, compared the same way
+    td_code = [None] * len(td_inputs)
+    if core.ensure_driver2(ctx.tie):
+        td_code = core.driver_batch([[Atom("code"), "timedelta", s] for s in td_inputs], exe=core.DRIVER2)
+        ctx.cov.setdefault("generated_code_stream_timedelta", len(td_inputs))
+
+    def eqf(x, y):
+        return (isinstance(x, float) and isinstance(y, float) and math.isnan(x) and math.isnan(y)) or x == y
+
+    def compare(stream, s, r, rec, a):
+        """a: what the model / the generated code says about the loop over the parts; r, rec: the real run"""
+        if a is None:
+            return
+        if a[0] == "err":
+            if not (r[0] == "err" and r[1] == str(a[1])):
+                ctx.disagree(stream, s, r[:2] if r[0] == "err" else ["ok"], a)
+            return
+        # the loop completed: the constructor must have been called with exactly these amounts
+        if rec.kw is None:
+            ctx.disagree(stream, s, r[:2] if r[0] == "err" else ["ok", "constructor not called"], a)
+            return
+        want = {}
+        for unit, lit in zip(("weeks", "days", "hours", "minutes", "seconds"), a[1]):
+            want[unit] = 0 if lit == "none" else float(lit)
+        if set(rec.kw) != set(want) or not all(eqf(rec.kw[k], want[k]) for k in want):
+            ctx.disagree(stream, s, {k: repr(v) for k, v in rec.kw.items()}, a)
+    for s, a, ac in zip(td_inputs, td_ans, td_code):
         rec = _Rec(real_dt)
         Dm.datetime = rec
         try:
@@ -246,24 +273,8 @@ def run(ctx):
         if r[0] == "exc":
             ctx.violate("timedelta(%r) raised %s" % (s, r[1]), {"datatype": "timedelta", "input": s}, signature="C09:timedelta:exc:" + r[1])
             continue
-        if a is None:
-            continue
-        if a[0] == "err":
-            if not (r[0] == "err" and r[1] == str(a[1])):
-                ctx.disagree("timedelta", s, r[:2] if r[0] == "err" else ["ok"], a)
-            continue
-        # model says the loop completed: the constructor must have been called with exactly these amounts
-        if rec.kw is None:
-            ctx.disagree("timedelta", s, r[:2] if r[0] == "err" else ["ok", "constructor not called"], a)
-            continue
-        want = {}
-        for unit, lit in zip(("weeks", "days", "hours", "minutes", "seconds"), a[1]):
-            want[unit] = 0 if lit == "none" else float(lit)
-
-        def eqf(x, y):
-            return (isinstance(x, float) and isinstance(y, float) and math.isnan(x) and math.isnan(y)) or x == y
-        if set(rec.kw) != set(want) or not all(eqf(rec.kw[k], want[k]) for k in want):
-            ctx.disagree("timedelta", s, {k: repr(v) for k, v in rec.kw.items()}, a)
+        compare("timedelta", s, r, rec, a)
+        compare("generated-code:timedelta", s, r, rec, ac)
     # the six host-dependent datatypes (existing-*, locale behind MemoizedConversion, timedelta through the complete table)
     c09_host.run_host(ctx)
     ctx.cov["exhaustive"] = True
